@@ -14,7 +14,8 @@
    Theorems named *_refuted are counterexamples to the ideal statement, true of the faithful
    model (and replayed on the implementation by checks/c18.py). *)
 From DtlsV Require Import Lib.Bytes Gen.Generated Codec.C18Comb Codec.C18CombSound
-  Codec.C18Rec Codec.C18RecSound Codec.C18Hs Codec.C18HsSound Codec.C18Run.
+  Codec.C18Rec Codec.C18RecSound Codec.C18Hs Codec.C18HsSound Codec.C18Rec13 Codec.C18Rec13Sound
+  Codec.C18Run.
 Open Scope N_scope.
 
 (* ================================================================== the combinator library *)
@@ -197,6 +198,68 @@ Theorem C18_record12_value_fixpoint_refuted :
                 record_marshal (w_hs 0) x = Some e /\ record_unmarshal (w_hs 0) 0 e <> Some x.
 Proof. exact record12_value_fixpoint_refuted. Qed.
 Print Assumptions C18_record12_value_fixpoint_refuted.
+
+(* ================================================================== DTLS 1.3 record layer *)
+
+(* unified header under every negotiated connection-id length (<= 255, as Marshal enforces) *)
+Theorem C18_unified_header : forall cidlen,
+  sound (c_uhdr cidlen) /\ wsound (w_uhdr cidlen) /\ wtrunc (w_uhdr cidlen) /\ wlenient (w_uhdr cidlen) /\
+  ((cidlen <= 255)%nat -> wfixpoint (w_uhdr cidlen)).
+Proof.
+  exact (fun n => conj (sound_uhdr n) (conj (uhdr_roundtrip n) (conj (uhdr_trunc n)
+                  (conj (uhdr_ignores_body n) (uhdr_fixpoint n))))).
+Qed.
+Print Assumptions C18_unified_header.
+
+Theorem C18_unified_header_domain : forall n cid sq sb l lb el,
+  wf (c_uhdr n) (mk_uhdr cid sq sb l lb el) = true <->
+  (length cid <= 255)%nat /\ (cid = [] \/ length cid = n) /\ bytes_ok cid = true /\
+  sq < (if sb then 65536 else 256) /\ (if lb then l < 65536 else l = 0) /\ el < 4.
+Proof. exact uhdr_wf_spec. Qed.
+Print Assumptions C18_unified_header_domain.
+
+Theorem C18_ciphertext_record13_roundtrip : forall n x, crec13_wf n x = true ->
+  exists e, crec13_marshal x = Some e /\ crec13_unmarshal n e = Some x.
+Proof. exact crec13_roundtrip. Qed.
+Print Assumptions C18_ciphertext_record13_roundtrip.
+
+Theorem C18_ciphertext_record13_fixpoint : forall n b x, (n <= 255)%nat -> bytes_ok b = true ->
+  crec13_unmarshal n b = Some x ->
+  exists e x', crec13_marshal x = Some e /\ crec13_unmarshal n e = Some x' /\
+               crec13_marshal x' = Some e /\ snd x' = snd x.
+Proof. exact crec13_fixpoint. Qed.
+Print Assumptions C18_ciphertext_record13_fixpoint.
+
+Theorem C18_ciphertext_record13_length_honoured : forall n b h er,
+  crec13_unmarshal n b = Some (h, er) ->
+  ct_len_ok (len er) = true /\ (uh_lbit h = true -> uh_len h = len er).
+Proof. exact crec13_length_honoured. Qed.
+Print Assumptions C18_ciphertext_record13_length_honoured.
+
+Theorem C18_plaintext_record13_roundtrip : forall x, prec13_wf (w_hs 0) x = true ->
+  exists e, prec13_marshal (w_hs 0) x = Some e /\ prec13_unmarshal (w_hs 0) e = Some x.
+Proof. exact (prec13_roundtrip (w_hs 0) (hs_roundtrip 0)). Qed.
+Print Assumptions C18_plaintext_record13_roundtrip.
+
+(* unlike RecordLayer.Unmarshal, the DTLS 1.3 plaintext record honours its declared length *)
+Theorem C18_plaintext_record13_length_honoured : forall b h c,
+  prec13_unmarshal (w_hs 0) b = Some (h, c) ->
+  len b = 13 + h_len h /\ h_len h <= 16384 /\ h_epoch h = 0 /\ is_plain13_ct (h_ct h) = true /\
+  content_type c = h_ct h.
+Proof. exact (prec13_length_honoured (w_hs 0)). Qed.
+Print Assumptions C18_plaintext_record13_length_honoured.
+
+(* UnpackDatagram13: the records are consecutive pieces of the datagram; what is not returned is
+   the untouched tail, and without connection ids there is no such tail *)
+Theorem C18_unpack13_partition : forall n req en, (n <= 255)%nat -> forall fuel first b rs rest,
+  bytes_ok b = true -> unpack13 n req en first fuel b = Some (rs, rest) -> concat rs ++ rest = b.
+Proof. exact unpack13_partition. Qed.
+Print Assumptions C18_unpack13_partition.
+
+Theorem C18_unpack13_no_cid_total : forall req en fuel first b rs rest,
+  unpack13 0 req en first fuel b = Some (rs, rest) -> rest = [].
+Proof. exact unpack13_no_cid_total. Qed.
+Print Assumptions C18_unpack13_no_cid_total.
 
 (* ================================================================== handshake messages *)
 
